@@ -75,7 +75,7 @@ InitRegs(T) ==
 
 Init == /\ tst \in 1..Len(Tests)
         /\ pc = 1 /\ R = InitRegs(Tests[tst]) /\ M = InitMem(Tests[tst])
-        /\ Z = FALSE /\ sar = 0 /\ tR = {} /\ tM = {} /\ tZ = FALSE /\ halted = FALSE /\ steps = 0
+        /\ Z = FALSE /\ sar = -1 /\ tR = {} /\ tM = {} /\ tZ = TRUE /\ halted = FALSE /\ steps = 0
         /\ TLCSet(1, 0) /\ TLCSet(2, 0)
 
 ---------------------------------------------------------------------------
@@ -160,6 +160,7 @@ DoAddi ==
 \* --- Xtensa funnel shift: d := low 32 bits of ((a:b) >> sar)
 DoSsai == /\ sar' = I.imm /\ NextPc /\ UNCHANGED <<R, M, Z, tR, tM, tZ, halted, tst>>
 DoSrc ==
+    IF sar < 0 THEN Fail("funnel shift before any ssai: the result depends on what the caller left in SAR") /\ Stop /\ UNCHANGED <<tst>> ELSE
     LET v == SubSeq(ShrV(Reg(I.b) \o Reg(I.a), sar, LB), 1, 2) IN
     /\ R' = SetReg(I.d, v)
     /\ Taint(I.d, I.a \in tR \/ I.b \in tR)
